@@ -305,24 +305,32 @@ class AbsSpectrumCalculator(EnergyUnitsManaged):
         
         """
         ta = self.TimeAxis
-        # transition frequency
-        om = self.system.elenergies[1]-self.system.elenergies[0]
-        # transition dipole moment
-        dm = self.system.dmoments[0,1,:]
-        # dipole^2
-        dd = numpy.dot(dm,dm)
-        # natural life-time from the dipole moment
-        gama = [-1.0/self.system.get_electronic_natural_lifetime(1)]
         
-        if self.system._has_system_bath_coupling:
-            # correlation function
-            ct = self.system.get_egcf((0,1))            
-            tr = {"ta":ta,"dd":dd,"om":om-self.rwa,"ct":ct,"gg":gama}
-        else:
-            tr = {"ta":ta,"dd":dd,"om":om-self.rwa,"gg":gama}
-
-        # calculates the one transition of the monomer        
-        data = numpy.real(self.one_transition_spectrum(tr))
+        # all transitions from the ground state contribute
+        data = None
+        for kk in range(1, self.system.nel):
+            # transition frequency
+            om = self.system.elenergies[kk]-self.system.elenergies[0]
+            # transition dipole moment
+            dm = self.system.dmoments[0,kk,:]
+            # dipole^2
+            dd = numpy.dot(dm,dm)
+            if (kk > 1) and (dd == 0.0):
+                # a transition without a dipole moment does not absorb
+                continue
+            # natural life-time from the dipole moment
+            gama = [-1.0/self.system.get_electronic_natural_lifetime(kk)]
+            
+            if self.system._has_system_bath_coupling:
+                # correlation function
+                ct = self.system.get_egcf((0,kk))            
+                tr = {"ta":ta,"dd":dd,"om":om-self.rwa,"ct":ct,"gg":gama}
+            else:
+                tr = {"ta":ta,"dd":dd,"om":om-self.rwa,"gg":gama}
+    
+            # calculates the one transition of the monomer        
+            dk = numpy.real(self.one_transition_spectrum(tr))
+            data = dk if data is None else data + dk
         
 
         # we only want to retain the upper half of the spectrum
